@@ -62,9 +62,6 @@ def watch(ctx, anchors):
 def report(ctx, required=()):
     entered = {lab: n for (lab, n) in _state['reach'].values()}
     ctx.extra['anchors_entered'] = entered
-    for lab in required:
-        if entered.get(lab, 0) == 0:
-            ctx.flag_inconclusive('anchor %s was never entered' % lab)
     if _state['probes']:
         ctx.extra['probes'] = {p['name']: (p['fired'] if p['line'] else 'missing')
                                for plist in _state['probes'].values() for p in plist}
